@@ -4,8 +4,9 @@ id=$1; tier=${2:-quick}; shift; shift
 d=/verif/seeded/$id
 props=${*:-$(python3 -c "import json;print(json.load(open('$d/meta.json'))['property'])")}
 git -C /repo apply $d/patch.diff || { echo "patch does not apply"; exit 2; }
-trap 'git -C /repo checkout -q -- .' EXIT
+scratch=$(mktemp -d /tmp/tryseed.XXXX)
+trap 'git -C /repo checkout -q -- .; rm -rf $scratch' EXIT
 for p in $props; do
-  out=$(cd /verif && ./run_check.sh $p $tier 2>&1); rc=$?
+  out=$(cd /verif && VERIF_OUT=$scratch ./run_check.sh $p $tier 2>&1); rc=$?
   echo "== $id vs $p ($tier): exit=$rc"; echo "$out" | grep -E "^(VIOLATION|CHECK-FAILURE|KNOWN|ERROR|  pkg)" | head -12
 done
